@@ -181,8 +181,19 @@ def execute(sc, ctx):
             q = type(p)()
             q.decode(b)
             if not (q == p) or q.encode() != b:
-                unstable.append(type(p).__name__)
-                sim.record("unstable_pdu", pdu=type(p).__name__)
+                # does repeated decode/encode converge (e.g. one padding NUL of a UID stripped per round) or not?
+                cause = "diverges"
+                cur = q
+                for _ in range(6):
+                    nb = cur.encode()
+                    nxt = type(p)()
+                    nxt.decode(nb)
+                    if nxt == cur and nxt.encode() == nb:
+                        cause = "converges-after-restripping-uid-padding" if b"\x00\x00" in b else "converges"
+                        break
+                    cur = nxt
+                unstable.append("%s:%s" % (type(p).__name__, cause))
+                sim.record("unstable_pdu", pdu=type(p).__name__, cause=cause)
         except Exception as e:  # noqa: BLE001
             unstable.append("%s:%s" % (type(p).__name__, type(e).__name__))
             sim.record("unstable_pdu", pdu=type(p).__name__, exc=repr(e)[:120])
@@ -252,7 +263,7 @@ def check(sc, r):
         out.append(C.v("no-hang", "C02/run-%s/%s/%s" % (r.failure, sc["state"], "+".join(roles)), "run ended %s after probes %s: %s" % (r.failure, kinds, r.failure_info)))
         return out
     if r.obs.get("unstable"):
-        out.append(C.v("stable-decode", "C02/unstable-pdu/%s" % r.obs["unstable"][0].split(":")[0], "decoded PDU does not re-encode/re-decode to an equal value: %s (probes %s)" % (r.obs["unstable"], kinds)))
+        out.append(C.v("stable-decode", "C02/unstable-pdu/%s" % r.obs["unstable"][0].replace(":", "/"), "decoded PDU does not re-encode/re-decode to an equal value: %s (probes %s)" % (r.obs["unstable"], kinds)))
     lab = "req0" if sc["state"] == "sta5" else "acc0"
     st = r.final.get(lab)
     if st and "error" not in st and lab not in dead:
